@@ -204,7 +204,7 @@ class Buffer:
     #   - language tokens count as space, but must not get lost:
     #     stop at them (stop_lang), or collect them in list langs
     #
-    def skip_space(self, langs=None, stop_lang=False):
+    def skip_space(self, langs=None, stop_lang=False, stop_action=False):
         tok = self.cur()
         while self.is_space(tok):
             if type(tok) is defs.LanguageToken:
@@ -212,6 +212,8 @@ class Buffer:
                     break
                 if langs is not None:
                     langs.append(tok)
+            if stop_action and type(tok) is defs.ActionToken:
+                break
             tok = self.next()
         return tok
 
